@@ -224,7 +224,14 @@ func TestIssuer(t *testing.T) {
 			if err != nil {
 				t.Fatalf("harness: %v", err)
 			}
-			mustReject(t, s, iss, st.Request().Marshal(), "unregistered-origin")
+			class := "unregistered-origin"
+			if rapid.Bool().Draw(t, "askForItsIndexKeyFirst") {
+				// the operator's read accessors are not registrations: asking for the index key of a name that was
+				// never added (and the other accessors) must not make the issuer serve it
+				rt.GuardLite(func() { _ = iss.OriginIndexKey(o); _ = iss.NameKey(); _ = iss.TokenKeyID() })
+				class = "unregistered-origin-after-index-key-lookup"
+			}
+			mustReject(t, s, iss, st.Request().Marshal(), class)
 		}
 
 		// ---- crafted requests
